@@ -1,7 +1,66 @@
-(* Properties_C20.v — C20: the shipped URI grammar accepts exactly RFC 3986.  Theorems only. *)
-From PegtlV Require Import Base Grammar Engine Regex Rfc3986 UriModel UriProof.
+(* Properties_C20.v — C20: the shipped URI grammar (contrib/uri.hpp) against RFC 3986 Appendix A.
+   Theorems only; every proof is `exact <lemma of UriProof.v>`.
 
+   Vocabulary
+     uri_table            gen/Uri_gen.v: the grammar table the C++ compiler dumps for  seq< uri::X, eof >,
+                          X in URI, URI_reference, absolute_URI, IPv4address, IPv6address — REGENERATED from
+                          /repo/include on every run; every theorem below is about this definition.
+     uri_run f t s        the engine model (UriModel.evalx = Engine.eval_head / match.hpp + the C15 model of
+                          maximum_rule for the uri::dec_octet leaf) on that table, root of production t,
+                          input s, fuel f, default parse<> configuration (no action, control normal).
+     uri_accepts t s      exists fuel such that the run returns true;
+     uri_rejects t s      exists fuel such that it returns false or raises.
+     rfc t                Rfc3986.v: the RFC production as a regular expression; matches = its denotation.
+     bytes_ok s           every element of s is < 256. *)
+From PegtlV Require Import Base Grammar Engine ExactSound Regex RegexIncl Rfc3986 UriModel UriProof.
+
+(* ---- the specification-side recogniser is exact (this is the oracle the check extracts) ---- *)
+Theorem C20_oracle_exact : forall r s, re_match r s = true <-> matches r s.
+Proof. exact Regex.re_match_correct. Qed.
+Print Assumptions C20_oracle_exact.
+
+(* the inclusion checker used below is sound *)
+Theorem C20_incl_checker_sound : forall fuel a b, incl_auto fuel a b = true ->
+  forall s, bytes_lt256 s -> matches a s -> matches b s.
+Proof. exact RegexIncl.incl_auto_sound. Qed.
+Print Assumptions C20_incl_checker_sound.
+
+(* ---- no exception other than parse_error: no action is attached, only must / if_must / opt_must raise ---- *)
+Theorem C20_only_parse_error : forall t f s e c' evs, bytes_ok s ->
+  uri_run f t s = Res (Exc e) c' evs -> exists w p, e = EParse w p.
+Proof. exact UriProof.only_parse_error. Qed.
+Print Assumptions C20_only_parse_error.
+
+(* a verdict does not depend on the fuel: accepted and rejected exclude each other *)
+Theorem C20_verdict_unique : forall t s, uri_accepts t s -> uri_rejects t s -> False.
+Proof. exact UriProof.accepts_not_rejects. Qed.
+Print Assumptions C20_verdict_unique.
+
+(* ---- soundness: whatever the shipped grammar accepts is derivable from the RFC production ---- *)
+Theorem C20_sound_IPv4address : forall s, bytes_ok s -> uri_accepts TIPv4address s -> matches (rfc TIPv4address) s.
+Proof. exact UriProof.sound_IPv4address. Qed.
+Print Assumptions C20_sound_IPv4address.
+
+Theorem C20_sound_IPv6address : forall s, bytes_ok s -> uri_accepts TIPv6address s -> matches (rfc TIPv6address) s.
+Proof. exact UriProof.sound_IPv6address. Qed.
+Print Assumptions C20_sound_IPv6address.
+
+Theorem C20_sound_URI : forall s, bytes_ok s -> uri_accepts TURI s -> matches (rfc TURI) s.
+Proof. exact UriProof.sound_URI. Qed.
+Print Assumptions C20_sound_URI.
+
+Theorem C20_sound_absolute_URI : forall s, bytes_ok s -> uri_accepts Tabsolute_URI s -> matches (rfc Tabsolute_URI) s.
+Proof. exact UriProof.sound_absolute_URI. Qed.
+Print Assumptions C20_sound_absolute_URI.
+
+Theorem C20_sound_URI_reference : forall s, bytes_ok s -> uri_accepts TURI_reference s -> matches (rfc TURI_reference) s.
+Proof. exact UriProof.sound_URI_reference. Qed.
+Print Assumptions C20_sound_URI_reference.
+
+(* ---- completeness is FALSE for the URI forms: "//1.2.3.4a" is an RFC URI-reference (host = reg-name) that
+        the shipped grammar rejects, because uri::host = sor< IP_literal, IPv4address, reg_name > commits to the
+        IPv4address prefix.  Engine verdict and matcher verdict are both computed (vm_compute). ---- *)
 Theorem C20_complete_refuted :
-  exists s, matches (rfc TURI_reference) s /\ uri_rejects TURI_reference s.
+  exists s, bytes_ok s /\ matches (rfc TURI_reference) s /\ uri_rejects TURI_reference s /\ ~ uri_accepts TURI_reference s.
 Proof. exact UriProof.complete_refuted. Qed.
 Print Assumptions C20_complete_refuted.
